@@ -287,12 +287,18 @@ pub fn gen_case(t: &mut Tape) -> Case {
                 sigs.push(format!("{}fn {}({}) -> String;", if f.is_async { "async " } else { "" }, f.name, ps.join(", ")));
                 fns.push(f);
             }
-            src.push_str(&format!("/*GEN*/ #[::entrait::entrait_export(mock_api = TheMock)]\npub trait TheTrait {{\n    {}\n}}\n", sigs.join("\n    ")));
+            // plain, or with a delegation-target trait (dependency inversion, static or dynamic): the mock API belongs to the user's trait
+            let head = *t.pick(&["", "", "TheImpl, delegate_by = DelegateIt, ", "TheImpl, delegate_by = ref, "]);
+            if !head.is_empty() {
+                classes.push("trait_with_delegation_target");
+            }
+            let at = if head.contains("= ref") && fns.iter().any(|f| f.is_async) { "#[::async_trait::async_trait]\n" } else { "" };
+            src.push_str(&format!("/*GEN*/ #[::entrait::entrait_export({head}mock_api = TheMock)]\n{at}pub trait TheTrait {{\n    {}\n}}\n", sigs.join("\n    ")));
             for f in &fns {
                 checks(f, &format!("TheMock::{}", f.name), "", false, &mut run, &mut classes, &mut nontrivial);
             }
             classes.push("trait");
-            summary = format!("#[::entrait::entrait_export(mock_api = TheMock)] trait TheTrait {{ {} }}", sigs.join(" "));
+            summary = format!("#[::entrait::entrait_export({head}mock_api = TheMock)] trait TheTrait {{ {} }}", sigs.join(" "));
         }
     }
     run.push_str("    fails\n}\n");
